@@ -80,7 +80,7 @@ def gen_scenario(rng, idx):
         f = rng.randrange(len(pipes))
         g = rng.choice(pipes[f][1])
         when = rng.choice(['before', 'half', 'finish'])
-        how = rng.choice(['exit1', 'exit1', 'segv', 'kill', 'term', 'hup'])
+        how = rng.choice(['exit1', 'exit1', 'segv', 'kill', 'term', 'hup', 'pipe'])
         d = rng.choice([0, 0, 60, 120])
         beh['%s_%d' % (g, slot[f][g])] = '%s,%s,%d' % (when, how, d)
         what = 'input %d stage %s: %s %s after %d ms' % (f, g, when, how, d)
